@@ -433,6 +433,40 @@ theorem reads_atomic (wal : Bool) (init sys : List Proc) (r : Nat) (p0 p : Proc)
     cases hc
   · rw [hpr] at hhead; cases hhead
 
+/-! ### after the restore: what the lock protocol does NOT give (known finding
+`restore-live-wal-stale-readers`) -/
+
+/-- While the destination's WAL holds frames, every attached reader notices the restore: whatever
+other readers did in between (recovered the wal-index or not), its next read transaction drops its
+cache, so it reads the snapshot only.  This is the region generated races stay in. -/
+theorem restore_nonempty_wal_readers_notice (f : WalDb) (r : WalReader) (g : Nat) (recovered : Bool)
+    (hm : 0 < r.hdr.mxFrame) :
+    let f1 := walRestore f g
+    let f2 := if recovered then walRecover f1 else f1
+    (walBeginRead f2 r).2.cacheGen = none ∧ walQueryGens (walBeginRead f2 r).1 (walBeginRead f2 r).2 = [g] := by
+  cases recovered
+  · simp [walRestore, walBeginRead, walRecover, walQueryGens]
+  · have hne : (⟨true, 0, 0⟩ : WalHdr) ≠ r.hdr := by
+      intro h; rw [← h] at hm; exact Nat.lt_irrefl 0 hm
+    simp [walRestore, walBeginRead, walRecover, walQueryGens, hne]
+
+/-- **Counterexample at HEAD (the code as it stands violates C19's reader clause).**  Destination in
+WAL mode with an EMPTY WAL, two attached readers A and B that have both read it.  After the restore
+A starts a read transaction: the header is zeroed, A recovers it — from an empty WAL, so it comes
+out exactly as before — and drops its cache.  B then finds a valid header equal to its own copy and
+keeps its cache: a query of B that touches a cached and an uncached page sees the old AND the new
+database.  Observed on the real CLI with reader processes (corpus/C19/restore_stale_readers_empty_wal.ops). -/
+theorem restore_empty_wal_stale_reader_counterexample :
+    let h0 : WalHdr := ⟨true, 0, 0⟩
+    let f0 : WalDb := { gen := 0, walFrames := 0, walSalt := 7, shm := h0 }
+    let a : WalReader := { hdr := h0, cacheGen := some 0 }
+    let b : WalReader := { hdr := h0, cacheGen := some 0 }
+    let f1 := walRestore f0 1
+    let (f2, a') := walBeginRead f1 a
+    let (f3, b') := walBeginRead f2 b
+    walQueryGens f2 a' = [1] ∧ b'.cacheGen = some 0 ∧ walQueryGens f3 b' = [0, 1] := by
+  decide
+
 /-! ### SQLite's lock sequences follow the discipline; concrete schedules -/
 
 example : readsUnderLock false (rollbackReader 3) = true := by decide
